@@ -186,6 +186,8 @@ mut("rco_or_operand_gets_and_bit", ["C04"], "calAndSetShortCircuitForRCO/",
     [("compiler.go", "\t\tcase isOrOpNode(p):\n\t\t\tn.flag |= orOp\n\t\tcase p.getNodeType() == cond", "\t\tcase isOrOpNode(p):\n\t\t\tn.flag |= andOp\n\t\tcase p.getNodeType() == cond")], "operands of or are flagged as operands of and")
 mut("rco_condition_inherits_instead_of_branches", ["C04"], "calAndSetShortCircuitForRCO/",
     [("compiler.go", "\t\tcase p.getNodeType() == cond && int16(i) > pIdx && n.value != \"fi\":", "\t\tcase p.getNodeType() == cond && int16(i) < pIdx && n.value != \"fi\":")], "the condition of an if inherits the enclosing and/or flag instead of the branches")
+mut("registered_operator_shadows_builtin", ["C02"], "parser.getOperator/post/builtin-first",
+    [("parser.go", "\top, exist := builtinOperators[opName]\n\tif !exist {\n\t\top, exist = p.conf.OperatorMap[opName]\n\t}\n\treturn op, exist", "\top, exist := p.conf.OperatorMap[opName]\n\tif !exist {\n\t\top, exist = builtinOperators[opName]\n\t}\n\treturn op, exist")], "a registered operator with a built-in name shadows the built-in (constant folding still uses the built-in)")
 
 def main():
     out = os.path.join(os.path.dirname(os.path.abspath(__file__)), "mutants")
